@@ -103,10 +103,14 @@ def library_exception_tally(pid, exc):
     baseline, converting a clean document, ...), that is a failure of valid use and is reported as a violation of the
     property being checked, keyed by exception type and raising function; anything else is a harness crash."""
     repo = os.path.realpath(os.environ.get("VERIF_REPO", "/repo")) + os.sep
+    verif = os.path.dirname(os.path.dirname(os.path.abspath(__file__))) + os.sep
     tb = exc.__traceback__
-    last = None
+    last = None  # the innermost frame that belongs to the library or to the harness (frames of the standard library
+    # reached from there - typing, copy, re ... - are attributed to whoever called them)
     while tb is not None:
-        last = tb
+        f = os.path.realpath(tb.tb_frame.f_code.co_filename)
+        if f.startswith(repo) or f.startswith(verif):
+            last = tb
         tb = tb.tb_next
     if last is None:
         return None
